@@ -67,8 +67,29 @@ fn real_main() -> i32 {
             let part: usize = arg_val(&args, "--part").and_then(|s| s.parse().ok()).unwrap_or(0);
             let parts: usize = arg_val(&args, "--parts").and_then(|s| s.parse().ok()).unwrap_or(1);
             if let Some(e) = prop.enumerate {
-                let mut sink = EnumSink { stats: &mut stats, known: &known };
-                e(thorough, part, parts, &mut sink);
+                // a panic that escapes an enumerated check is a failure of the crate under test (the
+                // enumerators only build inputs inside the documented domains), not an infrastructure problem
+                let r = runner::catch(|| {
+                    let mut sink = EnumSink { stats: &mut stats, known: &known };
+                    e(thorough, part, parts, &mut sink);
+                });
+                if let Err(msg) = r {
+                    let site = msg.rsplit(" @ ").next().unwrap_or("").to_string();
+                    let short = site.rsplit('/').next().unwrap_or("").split(':').next().unwrap_or("").to_string();
+                    let class = format!("{}/panic/{}", prop.id, short);
+                    if known.is_known(&class) {
+                        let e = stats.known_hits.entry(class).or_insert((0, msg.clone()));
+                        e.0 += 1;
+                    } else if stats.violation.is_none() {
+                        stats.violation = Some(runner::Violation {
+                            class,
+                            msg: format!("unexpected panic during the exhaustive enumeration: {}", msg),
+                            tape: vec![],
+                            case: format!("enumeration part {} of {} (the enumeration is deterministic: re-run the check to reproduce)", part, parts),
+                            engine: "enum".into(),
+                        });
+                    }
+                }
             }
         }
         "replay" => {
